@@ -6,94 +6,187 @@
 (*   TestStart(k)  snapshot := proxies of the running threads, equal by      *)
 (*                 *ident*; a proxy of a threading.Thread knows when its     *)
 (*                 thread has ended, one of a low-level (_thread) thread     *)
-(*                 does not                                                  *)
-(*   Start(th)     a test starts a thread (threading or _thread API); the    *)
-(*                 system hands out an ident that no running thread has -    *)
-(*                 possibly one a finished thread had before (ReuseIdents)   *)
+(*                 does not (neither threadsupport.DummyThread nor           *)
+(*                 threading._DummyThread, CPython 3.12).  A proxy wraps     *)
+(*                 the threading object if threading knows the thread at     *)
+(*                 that moment (it then reads the name live from it), else a *)
+(*                 placeholder with a name made from the ident               *)
+(*   Start(th)     a thread is started (threading or _thread API) - by a     *)
+(*                 test or, k = 0, before the first test (at import time of  *)
+(*                 the test modules); the system hands out an ident that no  *)
+(*                 running thread has - possibly one a finished thread had   *)
+(*                 before (ReuseIdents)                                      *)
 (*   End(th)       a running thread finishes (released by any later test)    *)
-(*   TestStop(k)   report[k] := running threads whose ident is not that of a *)
+(*   Adopt(th)     a running low-level thread becomes known to threading     *)
+(*                 (it calls threading.current_thread() for the first time:  *)
+(*                 logging does that): from now on everybody sees it under   *)
+(*                 the name threading made up for it ("Dummy-N") instead of  *)
+(*                 the runner's placeholder name ("Dummy-<ident>")           *)
+(*   Rename(th,n)  a running thread known to threading is given another name *)
+(*   TestStop(k)   report := running threads whose ident is not that of a *)
 (*                 snapshot entry still taken for alive (fix 12a8a7f; before *)
 (*                 it: of any snapshot entry - deviation                     *)
-(*                 "SnapshotKeepsEnded") and whose name matches no ignore    *)
-(*                 pattern                                                   *)
+(*                 "SnapshotKeepsEnded") and whose name *at this moment*     *)
+(*                 matches no ignore pattern                                 *)
+(*                                                                           *)
+(* Names are opaque numbers: Names (< 100) are the names a test gives to     *)
+(* threading threads, several threads may carry the same one; 100 + ident is *)
+(* the placeholder name of a low-level thread unknown to threading, 200 + th *)
+(* the name threading makes up when it adopts one.  Which names match an     *)
+(* ignore pattern is an environment fact: IgnNames, and dummyIgn for both    *)
+(* kinds of made-up names (a pattern like "Dummy-" matches both or none).    *)
+(* Not modelled: on CPython 3.12 threading keeps the object it made up for   *)
+(* an adopted thread after the thread has ended, so a later low-level thread *)
+(* that is handed the same ident is seen under that old made-up name at once *)
+(* - another name of the same ignore class, so no report changes.            *)
+(*                                                                           *)
 (* P-spec: report[k] = threads started during test k, still running at its   *)
-(* end, not ignored.                                                         *)
+(* end, not ignored.  Threads that exist before the first test (startedIn =  *)
+(* 0) are never reported.  The statement does not say *when* a thread's name *)
+(* is looked at.  The only name a runner can see is the one the thread       *)
+(* carries when the test ends, and that name decides here - except in this   *)
+(* explicit DON'T-CARE ZONE: a thread that test k started under a name of    *)
+(* one ignore class and that carries a name of the other class when k ends   *)
+(* may or may not be reported for k (reading "the name it was started with"  *)
+(* vs. "the name it has now").  Renaming or adopting a thread in any test    *)
+(* *after* the one that started it never makes it reportable: a leak belongs *)
+(* to the test that started it.                                              *)
+(*                                                                           *)
 (* The history variable hist is the schedule replayed on the real runner.    *)
 (* Deviations: "NoAliveCheck" (finished threads still known to threading are *)
 (* reported), "SnapshotAfterBody" (snapshot taken too late), "KeepSnapshot"  *)
-(* (the snapshot of the first test is reused).                               *)
+(* (the snapshot of the first test is reused), "ProxyEqName" (two proxies    *)
+(* are equal only if ident AND name agree: an adopted thread no longer       *)
+(* equals its own snapshot entry), "OnePerName" (of several new threads with *)
+(* the same name only one is reported).                                      *)
 EXTENDS Naturals, Sequences, FiniteSets, TLC
 
-CONSTANTS NT, NTh, NI, ReuseIdents, Deviations, MaxOps, Apis
+CONSTANTS NT, NTh, NI, ReuseIdents, Deviations, MaxOps, Apis,
+          NPre,         \* at most this many threads are started before the first test
+          Names,        \* names tests give to threading threads (numbers < 100)
+          IgnNames,     \* those of them that match an ignore pattern
+          DummyIgn,     \* possible values of "made-up names match an ignore pattern"
+          MaxX,         \* at most this many Adopt / Rename steps in a behaviour
+          RenameSame,   \* schedule export: Names are name *classes*, a rename may stay in its class
+          KeepHist      \* schedule export: hist is recorded (it makes the state graph a tree)
 
 Th == 1..NTh
 Idents == 1..NI
+Ph(i) == 100 + i       \* placeholder name of a thread unknown to threading
+Ad(th) == 200 + th     \* name threading makes up for an adopted thread
 
-VARIABLES k, phase, st, ident, ign, api, startedIn, snap, report, used, hist, ops
-vars == <<k, phase, st, ident, ign, api, startedIn, snap, report, used, hist, ops>>
+VARIABLES k, phase, st, ident, name, ignAtStart, api, known, startedIn, snap, report, used,
+          hist, ops, xops, dummyIgn
+vars == <<k, phase, st, ident, name, ignAtStart, api, known, startedIn, snap, report, used,
+          hist, ops, xops, dummyIgn>>
 
 Running == {th \in Th : st[th] = "alive"}
 RunningIdents == {ident[th] : th \in Running}
+Ign(n) == IF n < 100 THEN n \in IgnNames ELSE dummyIgn
+Log(x) == IF KeepHist THEN Append(hist, x) ELSE hist
 
 Init == /\ k = 0 /\ phase = "between"
         /\ st = [th \in Th |-> "new"] /\ ident = [th \in Th |-> 0]
-        /\ api = [th \in Th |-> "none"]
-        /\ ign = [th \in Th |-> FALSE] /\ startedIn = [th \in Th |-> 0]
-        /\ snap = {} /\ report = [t \in 1..NT |-> {}] /\ used = {}
-        /\ hist = <<>> /\ ops = 0
+        /\ api = [th \in Th |-> "none"] /\ known = [th \in Th |-> FALSE]
+        /\ name = [th \in Th |-> 0] /\ ignAtStart = [th \in Th |-> FALSE]
+        /\ startedIn = [th \in Th |-> 0]
+        /\ snap = {} /\ report = {} /\ used = {}
+        /\ dummyIgn \in DummyIgn
+        /\ hist = <<<<"cfg", dummyIgn>>>> /\ ops = 0 /\ xops = 0
 
 TestStart == /\ phase = "between" /\ k < NT
              /\ k' = k + 1 /\ phase' = "in" /\ ops' = 0
              /\ snap' = IF "SnapshotAfterBody" \in Deviations THEN snap
                         ELSE IF "KeepSnapshot" \in Deviations /\ k >= 1 THEN snap
-                        ELSE Running            \* the proxies (threads), compared by ident
-             /\ hist' = Append(hist, <<"test", k + 1>>)
-             /\ UNCHANGED <<st, ident, ign, api, startedIn, report, used>>
+                        \* the proxies, and what each of them wraps
+                        ELSE {<<th, known[th]>> : th \in Running}
+             /\ hist' = Log(<<"test", k + 1>>)
+             /\ report' = {}
+             /\ UNCHANGED <<st, ident, name, ignAtStart, api, known, startedIn, used, xops, dummyIgn>>
 
-Start(th, i, g, a) ==
-  /\ phase = "in" /\ st[th] = "new" /\ ops < MaxOps
+(* during a test, or before the first one *)
+CanAct == \/ phase = "in" /\ ops < MaxOps
+          \/ phase = "between" /\ k = 0 /\ ops < NPre
+
+Start(th, i, n, a) ==
+  /\ CanAct /\ st[th] = "new"
   /\ \A o \in Th : o < th => st[o] # "new"          \* symmetry: threads in index order
   /\ i \notin RunningIdents
   /\ (~ReuseIdents => i \notin used)
   /\ \A j \in Idents : (j < i /\ j \notin RunningIdents /\ (ReuseIdents \/ j \notin used)) =>
         (ReuseIdents /\ j \notin used /\ i \in used)    \* canonical choice: lowest fresh, or a reused one
+  /\ (a = "lowlevel") = (n = Ph(i))                 \* a low-level thread has no name of its own
   /\ st' = [st EXCEPT ![th] = "alive"] /\ ident' = [ident EXCEPT ![th] = i]
-  /\ api' = [api EXCEPT ![th] = a]
-  /\ ign' = [ign EXCEPT ![th] = g] /\ startedIn' = [startedIn EXCEPT ![th] = k]
+  /\ api' = [api EXCEPT ![th] = a] /\ known' = [known EXCEPT ![th] = (a = "threading")]
+  /\ name' = [name EXCEPT ![th] = n] /\ ignAtStart' = [ignAtStart EXCEPT ![th] = Ign(n)]
+  /\ startedIn' = [startedIn EXCEPT ![th] = k]
   /\ used' = used \cup {i} /\ ops' = ops + 1
-  /\ hist' = Append(hist, <<"start", th, g>>)
-  /\ UNCHANGED <<k, phase, snap, report>>
+  /\ hist' = Log(<<"start", th, Ign(n), a>>)
+  /\ UNCHANGED <<k, phase, snap, report, xops, dummyIgn>>
 
 End(th) == /\ phase = "in" /\ st[th] = "alive" /\ ops < MaxOps
            /\ st' = [st EXCEPT ![th] = "dead"] /\ ops' = ops + 1
-           /\ hist' = Append(hist, <<"end", th>>)
-           /\ UNCHANGED <<k, phase, ident, ign, api, startedIn, snap, report, used>>
+           /\ hist' = Log(<<"end", th>>)
+           /\ UNCHANGED <<k, phase, ident, name, ignAtStart, api, known, startedIn, snap, report,
+                          used, xops, dummyIgn>>
+
+Adopt(th) == /\ phase = "in" /\ st[th] = "alive" /\ ops < MaxOps /\ xops < MaxX
+             /\ api[th] = "lowlevel" /\ ~known[th]
+             /\ known' = [known EXCEPT ![th] = TRUE] /\ name' = [name EXCEPT ![th] = Ad(th)]
+             /\ ops' = ops + 1 /\ xops' = xops + 1
+             /\ hist' = Log(<<"adopt", th>>)
+             /\ UNCHANGED <<k, phase, st, ident, ignAtStart, api, startedIn, snap, report, used,
+                            dummyIgn>>
+
+Rename(th, n) == /\ phase = "in" /\ st[th] = "alive" /\ ops < MaxOps /\ xops < MaxX
+                 /\ known[th] /\ (RenameSame \/ n # name[th])
+                 /\ name' = [name EXCEPT ![th] = n]
+                 /\ ops' = ops + 1 /\ xops' = xops + 1
+                 /\ hist' = Log(<<"rename", th, Ign(n)>>)
+                 /\ UNCHANGED <<k, phase, st, ident, ignAtStart, api, known, startedIn, snap,
+                                report, used, dummyIgn>>
 
 Candidates == IF "NoAliveCheck" \in Deviations
               THEN {th \in Th : st[th] \in {"alive", "dead"}} ELSE Running
 
+(* the name a snapshot entry shows now: read live from the threading object, *)
+(* or the placeholder's own                                                  *)
+SnapName(e) == IF e[2] THEN name[e[1]] ELSE Ph(ident[e[1]])
+SameThread(e, th) == /\ ident[e[1]] = ident[th]
+                     /\ ("ProxyEqName" \in Deviations => SnapName(e) = name[th])
+
 TestStop == /\ phase = "in"
-            /\ LET old == IF "SnapshotAfterBody" \in Deviations THEN Running ELSE snap
+            /\ LET old == IF "SnapshotAfterBody" \in Deviations
+                          THEN {<<th, known[th]>> : th \in Running} ELSE snap
                    \* entries still taken for alive: a low-level thread's proxy always is
-                   kept == {th \in old : \/ st[th] = "alive" \/ api[th] = "lowlevel"
-                                          \/ "SnapshotKeepsEnded" \in Deviations}
-                   sn == {ident[th] : th \in kept}
-               IN report' = [report EXCEPT ![k] =
-                     {th \in Candidates : ident[th] \notin sn /\ ~ign[th]}]
+                   kept == {e \in old : \/ st[e[1]] = "alive" \/ api[e[1]] = "lowlevel"
+                                        \/ "SnapshotKeepsEnded" \in Deviations}
+                   new == {th \in Candidates : (\A e \in kept : ~SameThread(e, th))
+                                               /\ ~Ign(name[th])}
+               IN report' = IF "OnePerName" \in Deviations
+                            THEN {th \in new : \A o \in new : name[o] = name[th] => o <= th}
+                            ELSE new
             /\ phase' = "between"
-            /\ UNCHANGED <<k, st, ident, ign, api, startedIn, snap, used, hist, ops>>
+            /\ UNCHANGED <<k, st, ident, name, ignAtStart, api, known, startedIn, snap, used, hist,
+                           ops, xops, dummyIgn>>
 
 Next == \/ TestStart \/ TestStop
-        \/ \E th \in Th : End(th) \/ \E i \in Idents, g \in BOOLEAN, a \in Apis : Start(th, i, g, a)
+        \/ \E th \in Th : \/ End(th) \/ Adopt(th)
+                          \/ \E n \in Names : Rename(th, n)
+                          \/ \E i \in Idents, a \in Apis :
+                               \E n \in (IF a = "lowlevel" THEN {Ph(i)} ELSE Names) : Start(th, i, n, a)
 
 Spec == Init /\ [][Next]_vars
 
 Finished(t) == t < k \/ (t = k /\ phase = "between")
 
-(* alive at the end of test t: evaluated when the test stops *)
+(* evaluated when test k has just stopped: "alive" and "name" are those at   *)
+(* its end                                                                   *)
+Leaked == {th \in Th : startedIn[th] = k /\ st[th] = "alive"}
+Must == {th \in Leaked : ~Ign(name[th]) /\ ~ignAtStart[th]}
+DontCare == {th \in Leaked : Ign(name[th]) # ignAtStart[th]}
 Precise ==
-  phase = "between" /\ k >= 1 =>
-    report[k] = {th \in Th : startedIn[th] = k /\ st[th] = "alive" /\ ~ign[th]}
+  phase = "between" /\ k >= 1 => Must \subseteq report /\ report \subseteq Must \cup DontCare
 
 Done == phase = "between" /\ k = NT
 Schedule == Done => PrintT(<<"SCHED", hist>>)
